@@ -32,7 +32,8 @@ SPEC = dict(
         "decimal printing/parsing modelled with the standard library's N.to_uint / N.of_uint (coq/lib/Dec.v)",
         "encoding/json and yaml.v2 themselves are not modelled: structured epoch input (JSON object) is only monitored on the implementation (parse-back of String and MarshalJSON output), not proved",
     ],
-    assumptions=["Go int is 64 bit (amd64)",
+    assumptions=["PARTIAL: the epoch round trip is proved for the short forms (0, N, N*) only; structured forms go through encoding/json, which is not modelled (printed bytes compared, parse-back monitored). Revision round trip, rejection, CanRead = set intersection and valid-reads-self are proved in full.",
+                 "Go int is 64 bit (amd64)",
                  "Revision.UnmarshalJSON on the single byte `\"` (never produced by encoding/json) panics in the Go code and is not exercised",
                  "epoch numbers are uint32: theorems assume list entries < 2^32"],
 )
